@@ -843,7 +843,10 @@ class IncludeNode(DirectiveNode):
             include_path = self.value.path
             is_system_include = self.value.system
         else:
-            expansion = MacroExpander(kwargs["platform"]).expand(self.value)
+            expansion = MacroExpander(
+                kwargs["platform"],
+                evaluate_defined=False,
+            ).expand(self.value)
             path_obj = DirectiveParser(expansion).include_path()
             include_path = path_obj.path
             is_system_include = path_obj.system
@@ -1749,10 +1752,14 @@ class MacroExpander:
     A specialized token parser for recognizing and expanding macros.
     """
 
-    def __init__(self, platform):
+    def __init__(self, platform, evaluate_defined=True):
         self.platform = platform
         self.parser_stack = []
         self.no_expand = []
+
+        # "defined" is an operator in #if and #elif expressions only; in the
+        # operand of a computed #include it is an ordinary identifier.
+        self.evaluate_defined = evaluate_defined
 
         # Prevent infinite recursion. CPP standard requires this be at
         # least 15, but cpp has been implemented to handle 200.
@@ -1880,7 +1887,7 @@ class MacroExpander:
                     continue
 
                 _ = self.consume_tok()
-                if ctok.token == "defined":
+                if ctok.token == "defined" and self.evaluate_defined:
                     try:
                         tok = self.peek_tok()
                         if tok.token == "(":
